@@ -122,6 +122,7 @@ class Interp:
         self.used_externals = set()
         self.functions_executed = set()
         self.loop_cuts_widened = set()
+        self.uncontracted_loops_executed = 0
         self.unrolled_in_contract_fn = set()    # functions with loop contracts in which some loop was executed WITHOUT a contract
         from . import models
         models.install(self)
@@ -717,6 +718,7 @@ class Interp:
             return None
         specs = self.loops.get(f.func.qualname)
         if not specs:
+            self.uncontracted_loops_executed += 1
             return None
         head = ast.unparse(s).split("\n")[0]
         for sp in specs:
